@@ -106,3 +106,144 @@ def walk_ops(rv, f):
             f(o)
     for o in rv.get("ops", []) or []:
         f(o)
+
+
+# ------------------------------------------------------------------ G3 / G5 (join) ----
+from r_hash import name_has, name_ends, calls_of  # noqa: E402
+
+
+def rule_G3(ctx, F):
+    csw = F.need_fn("compress_subtree_wide")
+    cls = [F.fns[p] for p in sorted(F.fns) if p.startswith("compress_subtree_wide::{closure#")]
+    ctx.floor("join closures", len(cls), 2)
+    ctx.ob(len(cls) == 2, "two-join-closures", csw.loc, "%d closure(s) in compress_subtree_wide" % len(cls))
+    muts = []
+    for c in cls:
+        caps = c.j.get("captures", [])
+        m = [x for x in caps if x["mode"].startswith("ref:Mutable") or x["mode"].startswith("ref:UniqueImmutable") or x["mode"] in ("value", "use") and x["ty"].startswith("&mut")]
+        byval_nonscalar = [x for x in caps if x["mode"] in ("value", "use") and x["ty"] not in ("u64", "u8", "usize", "platform::Platform") and not x["ty"].startswith("&")]
+        ctx.ob(len(m) == 1 and m[0]["ty"] == "[u8]", "closure-one-mutable-capture:%s" % c.path.split("::")[-1], c.loc,
+               "mutable captures: %s ; all captures: %s" % ([(x["var"], x["ty"]) for x in m], [(x["var"], x["mode"]) for x in caps]))
+        ctx.ob(not byval_nonscalar, "closure-no-owned-shared-state:%s" % c.path.split("::")[-1], c.loc, "by-value non-scalar captures: %s" % [(x["var"], x["ty"]) for x in byval_nonscalar])
+        if m:
+            muts.append(m[0]["var"])
+    # the two mutable captures are .0 / .1 of ONE split_at_mut of the local cv_array
+    def local_named(n):
+        for l, nm in csw.names.items():
+            if nm == n:
+                return l
+        return None
+    if len(muts) == 2:
+        exprs = []
+        for n in muts:
+            l = local_named(n)
+            exprs.append(val(csw.expr_local(l)) if l is not None else None)
+        SP = W("split")
+        ok = exprs[0] is not None and exprs[1] is not None
+        m0 = unify(("path", SP, ("0",)), exprs[0]) if ok else None
+        m1 = unify(("path", SP, ("1",)), exprs[1], m0) if m0 else None
+        ok = m1 is not None and m1["split"][0] == "call" and norm_path(m1["split"][1]).endswith("split_at_mut")
+        ctx.ob(ok, "outputs-are-halves-of-one-split_at_mut", csw.loc, "%s = %s ; %s = %s" % (muts[0], show(exprs[0])[:80] if exprs[0] else "?", muts[1], show(exprs[1])[:80] if exprs[1] else "?"))
+        if ok:
+            sp = m1["split"]
+            base = sp[2][0][1] if sp[2][0][0] == "cast" else sp[2][0]
+            base_ok = base[0] == "built" and base[2] == "cv_array"
+            at = unify(P.bin("Mul", ("phi", W(), "degree"), P.named("OUT_LEN")), sp[2][1]) is not None
+            ctx.ob(base_ok and at, "split-of-local-scratch", csw.loc, "split_at_mut(%s, %s) ; required (cv_array, degree*OUT_LEN)" % (show(sp[2][0]), show(sp[2][1])))
+    # input halves and the right-hand counter
+    le, re_ = local_named("left"), local_named("right")
+    if le is None or re_ is None:
+        raise MissingAnchor("locals left/right in compress_subtree_wide")
+    el, er = val(csw.expr_local(le)), val(csw.expr_local(re_))
+    SP = W("isplit")
+    m0 = unify(("path", SP, ("0",)), el)
+    m1 = unify(("path", SP, ("1",)), er, m0) if m0 else None
+    want_at = P.cast(P.call("hazmat::left_subtree_len", P.cast(("call", name_ends("::len"), (P.arg("input"),)), "u64")), "usize")
+    ok = m1 is not None and m1["isplit"][0] == "call" and norm_path(m1["isplit"][1]).endswith("::split_at") and m1["isplit"][2][0] == ("arg", 1, "input") and unify(want_at, m1["isplit"][2][1]) is not None
+    ctx.ob(ok, "input-halves-of-one-split_at", csw.loc, "left/right = input.split_at(left_subtree_len(input.len())): %s" % ok)
+    rc = local_named("right_chunk_counter")
+    erc = val(csw.expr_local(rc)) if rc is not None else None
+    want = P.bin("Add", P.arg("chunk_counter"), P.cast(P.bin("Div", ("call", name_ends("::len"), (el,)), P.named("CHUNK_LEN")), "u64"))
+    ctx.ob(erc is not None and unify(want, erc) is not None, "right-counter", csw.loc, "right_chunk_counter = %s ; required chunk_counter + left.len()/CHUNK_LEN" % (show(erc)[:120] if erc else "?"))
+    # each closure recurses with its own side only
+    want_args = [["left", "key", "chunk_counter", "flags", "platform", "left_out"], ["right", "key", "right_chunk_counter", "flags", "platform", "right_out"]]
+    for c, wa in zip(cls, want_args):
+        caps = [x["var"] for x in c.j.get("captures", [])]
+        cs = [(bi, t) for bi, t in c.calls() if callee_name(t["callee"]) == "compress_subtree_wide"]
+        got = []
+        if len(cs) == 1:
+            for a in cs[0][1]["args"]:
+                e = val(c.expr_operand(a))
+                root, el2 = path_fields(e)
+                nm = [x for x in el2 if isinstance(x, str) and x.startswith("upvar")]
+                got.append(caps[int(nm[0][5:])] if nm and int(nm[0][5:]) < len(caps) else "?")
+        ctx.ob(got == wa, "closure-recurses-on-own-half:%s" % c.path.split("::")[-1], c.loc, "compress_subtree_wide(%s) ; required (%s)" % (", ".join(got), ", ".join(wa)))
+        if cs:
+            ctx.ob(cs[0][1]["callee"].get("args") == ["J"], "closure-keeps-join-type:%s" % c.path.split("::")[-1], c.loc, "recursion instantiated with %s" % cs[0][1]["callee"].get("args"))
+    # the join call: (closure#0, closure#1) in order; results used positionally
+    js = [(bi, t) for bi, t in csw.calls() if t["callee"]["path"] == "join::Join::join"]
+    ctx.ob(len(js) == 1, "one-join-call", csw.loc, "%d J::join call(s)" % len(js))
+    for bi, t in js:
+        e = val(csw.expr_call(t))
+        order = [a[1] if a[0] == "closure" else "?" for a in e[2]]
+        ctx.ob(order == [c.path for c in cls], "join-argument-order", t.get("s"), "J::join(%s)" % ", ".join(o.split("::")[-1] for o in order))
+        ln, rn = local_named("left_n"), local_named("right_n")
+        ok = ln is not None and rn is not None and val(csw.expr_local(ln)) == ("path", e, ("0",)) and val(csw.expr_local(rn)) == ("path", e, ("1",))
+        ctx.ob(ok, "join-results-positional", t.get("s"), "(left_n, right_n) = J::join(..): %s" % ok)
+
+
+def rule_G5(ctx, F):
+    decl = [f for p, f in F.fns.items() if p == "join::Join::join" and f.kind == "decl"]
+    if not decl:
+        raise MissingAnchor("trait method join::Join::join")
+    preds = decl[0].j.get("preds", [])
+    for ty in ("A", "B", "RA", "RB"):
+        ctx.ob(any(norm_path(p) == "%s: core::marker::Send" % ty for p in preds), "join-send-bound:%s" % ty, decl[0].loc, "Join::join requires %s: Send (%s)" % (ty, [p for p in preds if p.startswith(ty + ":")]))
+    sj = F.need_fn("<join::SerialJoin as join::Join>::join")
+    e = val(sj.expr_local(0))
+    ok = e[0] == "tuple" and len(e[1]) == 2 and all(x[0] == "call" and "FnOnce" in x[1] for x in e[1]) \
+        and e[1][0][2][0] == ("arg", 1, "oper_a") and e[1][1][2][0] == ("arg", 2, "oper_b")
+    ctx.ob(ok, "serial-join", sj.loc, "SerialJoin::join = %s ; required (oper_a(), oper_b())" % show(e)[:160])
+    rj = F.fn("<join::RayonJoin as join::Join>::join")
+    if rj is not None:
+        e = val(rj.expr_local(0))
+        ok = e[0] == "call" and norm_path(e[1]).startswith("rayon_core::join") and e[2] == (("arg", 1, "oper_a"), ("arg", 2, "oper_b"))
+        ctx.ob(ok, "rayon-join", rj.loc, "RayonJoin::join = %s ; required rayon_core::join(oper_a, oper_b)" % show(e)[:160])
+        ur = F.need_fn("Hasher::update_rayon")
+        cs = [(bi, t) for bi, t in ur.calls()]
+        ok = len(cs) == 1 and callee_name(cs[0][1]["callee"]) == "Hasher::update_with_join" and cs[0][1]["callee"].get("args") == ["join::RayonJoin"]
+        ctx.ob(ok, "update_rayon-same-generic-body", ur.loc, "update_rayon = update_with_join::<RayonJoin>: %s" % ok)
+    elif F.cfg in ("asm-full", "pure-full", "intr-full"):
+        raise MissingAnchor("<join::RayonJoin as join::Join>::join")
+
+
+def rule_G4_join(ctx, F):
+    """effect closure under the join: nothing reachable from compress_subtree_wide touches statics,
+    atomics/locks/threads, I/O, or FFI other than the kernel symbols"""
+    reach = F.reachable_fns(["compress_subtree_wide"])
+    ctx.floor("functions reachable from compress_subtree_wide", len(reach), 15)
+    n = 0
+    for p in sorted(reach):
+        f = F.fns[p]
+        if not f.has_body:
+            continue
+        for bi, t in f.calls():
+            c = t["callee"]
+            name = norm_path(callee_name(c))
+            for a in t["args"]:
+                if a.get("static"):
+                    ctx.ob(False, "join-static-ref:%s" % p, t.get("s"), "%s passes static %s" % (p, a["static"]))
+            bad = any(name.startswith(x) or ("<" + x) in name for x in SHARED_STATE_CALLS) or name.startswith("core::io") or name.startswith("core::fs") or name.startswith("core::env")
+            if bad and not (p.startswith("<join::RayonJoin") or name.startswith("rayon_core::join")):
+                ctx.ob(False, "join-effect:%s:%s" % (p, name.split("::")[-1]), t.get("s"), "%s calls %s under the join" % (p, name))
+            if c.get("foreign"):
+                n += 1
+                sym = c["path"].split("::")[-1]
+                ctx.ob(sym in F.foreign, "join-ffi:%s" % sym, t.get("s"), "kernel symbol %s" % sym)
+        for bi, si, s in f.stmts():
+            if s["k"] == "assign":
+                found = []
+                walk_ops(s["rv"], lambda o: found.append(o["static"]) if o.get("static") else None)
+                for sp in found:
+                    ctx.ob(False, "join-static-ref:%s" % p, s.get("s"), "%s references static %s" % (p, sp))
+    ctx.ob(True, "join-effect-scan", "", "scanned %d reachable bodies" % len(reach))
